@@ -70,6 +70,17 @@ theorem lt_of_get (s : State) (j : Nat) (o : Obj) (h : s.get j = some o) : j < s
 @[simp] theorem oof_push (s : State) (o : Obj) : (s.push o).oof = s.oof := rfl
 @[simp] theorem oof_addLog (s : State) (e : Event) : (s.addLog e).oof = s.oof := rfl
 @[simp] theorem oof_setOof (s : State) : (s.setOof).oof = true := rfl
+@[simp] theorem stuck_modify (s : State) (i : Nat) (f : Obj → Obj) : (s.modify i f).stuck = s.stuck := rfl
+@[simp] theorem stuck_remove (s : State) (i : Nat) : (s.remove i).stuck = s.stuck := rfl
+@[simp] theorem stuck_push (s : State) (o : Obj) : (s.push o).stuck = s.stuck := rfl
+@[simp] theorem stuck_addLog (s : State) (e : Event) : (s.addLog e).stuck = s.stuck := rfl
+@[simp] theorem stuck_setOof (s : State) : (s.setOof).stuck = s.stuck := rfl
+@[simp] theorem stuck_setStuck (s : State) : (s.setStuck).stuck = true := rfl
+@[simp] theorem oof_setStuck (s : State) : (s.setStuck).oof = s.oof := rfl
+@[simp] theorem get_setStuck (s : State) (j : Nat) : (s.setStuck).get j = s.get j := rfl
+@[simp] theorem heap_setStuck (s : State) : (s.setStuck).heap = s.heap := rfl
+@[simp] theorem nullCtx_setStuck (s : State) : (s.setStuck).nullCtx = s.nullCtx := rfl
+@[simp] theorem log_setStuck (s : State) : (s.setStuck).log = s.log := rfl
 @[simp] theorem log_modify (s : State) (i : Nat) (f : Obj → Obj) : (s.modify i f).log = s.log := rfl
 @[simp] theorem log_remove (s : State) (i : Nat) : (s.remove i).log = s.log := rfl
 @[simp] theorem log_push (s : State) (o : Obj) : (s.push o).log = s.log := rfl
